@@ -44,7 +44,28 @@ def sweep(ctx, n):
         warnings.simplefilter("ignore")
         for i in range(n):
             nps = np.random.default_rng(rng.randrange(2**31))
-            kind = ["flux-free", "flux-enclosing", "flux-cutting", "circ-magnet", "circ-loop-linked", "circ-loop-unlinked", "circ-polyloop", "flux-mesh-interior"][i % 8]
+            kind = ["flux-free", "flux-enclosing", "flux-cutting", "circ-magnet", "circ-loop-linked", "circ-loop-unlinked", "circ-polyloop", "flux-mesh-interior", "flux-segment-turns"][i % 9]
+            if kind == "flux-segment-turns":
+                # CylinderSegment whose angular range is written up to two full turns away from [-360, 360]: small boxes
+                # across its top face at azimuths spread over the whole range; net flux of B must vanish for each
+                r2, h = nps.uniform(0.8, 1.5), nps.uniform(0.5, 1.5)
+                r1 = nps.uniform(0.1, 0.5) * r2
+                a = nps.uniform(-180, 120) + 360.0 * rng.choice([-2, -1, 1, 2])
+                b = a + nps.uniform(60, 330)
+                src = magpy.magnet.CylinderSegment(dimension=(r1, r2, h, a, b), polarization=nps.uniform(-1, 1, 3))
+                worst_err = 0.0
+                for frac in (0.06, 0.5, 0.94):
+                    ph = np.radians(a + frac * (b - a))
+                    c = np.array([(r1 + r2) / 2 * np.cos(ph), (r1 + r2) / 2 * np.sin(ph), h / 2])
+                    half = np.array([0.04, 0.04, 0.1]) * (1 + nps.uniform(0, 0.5, 3))
+                    tot, mag = box_flux(lambda p: src.getB(p), c, half, 32)
+                    worst_err = max(worst_err, abs(tot) / (mag + 1e-300))
+                done += 1
+                worst[kind] = max(worst.get(kind, 0.0), float(worst_err))
+                if not worst_err < 2e-2:
+                    fails.append({"key": "integral-law:flux-segment-turns", "desc": f"net flux of B through a small box across the top face of a CylinderSegment with a shifted angular range is not zero (relative {worst_err:.2g})",
+                                  "replay": {"dimension": [float(x) for x in src.dimension], "polarization": src.polarization.tolist(), "rel": float(worst_err)}})
+                continue
             if kind == "flux-mesh-interior":
                 # small boxes strung along the line from the centroid to the farthest vertex of a lopsided mesh: inside the body B is
                 # smooth except across its surface, so the net flux of every box is zero whether it lies inside or cuts the surface
@@ -76,7 +97,7 @@ def sweep(ctx, n):
                     c, half = nps.uniform(3, 5, 3), nps.uniform(0.3, 1.5, 3)
                 elif kind == "flux-enclosing":
                     c, half = nps.uniform(-0.2, 0.2, 3), nps.uniform(2.5, 4, 3)
-                elif cls in ("Tetrahedron", "TriangularMesh", "Cuboid", "Cylinder", "Sphere") and rng.random() < 0.6:
+                elif cls in ("Tetrahedron", "TriangularMesh", "Cuboid", "Cylinder", "CylinderSegment", "Sphere") and rng.random() < 0.6:
                     # a small box around a point inside the body (anywhere, incl. its far ends): cuts the surface or lies inside
                     from oracles.sources import interior_points
                     src.orientation = None
